@@ -166,8 +166,8 @@ def crowd_case(ctx, rep, rng, lines, meta):
     case = {"pop": pop_str(pop), "target": target, "closer": closer}
     rep.case(("crowd", case["pop"], target), target > 0)
     rep.count("crowding_target", target)
-    if len(out) != half:
-        rep.violate(f"crowding returned {len(out)} individuals, expected {half}", "C08:crowding-count", case)
+    if len(out) != target:
+        rep.violate(f"crowding returned {len(out)} individuals for target {target}", "C08:crowding-count", case)
     for i in range(target // 2):
         pairs = [(2 * i, offspring[2 * i] if closer[i] else offspring[2 * i + 1]),
                  (2 * i + 1, offspring[2 * i + 1] if closer[i] else offspring[2 * i])]
@@ -183,9 +183,6 @@ def crowd_case(ctx, rep, rng, lines, meta):
                 rep.violate(f"deterministic crowding replaced parent (key {parent.key}) by child (key {child.key})", key, case)
             if got is parent and child_better and child is not parent:
                 rep.violate(f"deterministic crowding kept parent (key {parent.key}) although child (key {child.key}) is strictly better", "C08:crowding-rule", case)
-    for slot in range(target, half):
-        if out[slot] is not parents[slot]:
-            rep.violate(f"crowding changed slot {slot} beyond the target", "C08:crowding-pairing", case)
     if ctx.driver_ok:
         lines.append(f"crowd ; {case['pop']} ; {target} ; {' '.join(map(str, closer))}")
         meta.append(("crowd", case, [c.values[0] for c in out]))
@@ -207,7 +204,7 @@ def prob_case(ctx, rep, rng):
             t2 = 2 * rng.randrange(0, n // 4 + 1)
             out2 = ProbabilisticCrowding()(list(pop), t2)
             rep.case(("pcrowd", case["pop"], t2), True)
-            if len(out2) != n // 2 or any(all(o is not c for c in pop) for o in out2):
+            if len(out2) != t2 or any(all(o is not c for c in pop) for o in out2):
                 rep.violate("probabilistic crowding: wrong count or non-member", "C08:prob-member-count", {**case, "target": t2})
 
 
